@@ -479,6 +479,31 @@ def selectCall (isVariadic ellipsis : Bool) : List CallArm → CallKind
   | [] => .unrecognised
   | a :: rest => if a.guard.holds isVariadic ellipsis then a.kind else selectCall isVariadic ellipsis rest
 
+/-- `call` (the callee expression has a script-written function type): the guards of its per-argument switch, on the PARAMETER
+    type `arg` -/
+inductive CAGuard where
+  | spreadArg      -- spread: hasVariadicArgs && i == len(child)-1 — this argument is the slice followed by `...`
+  | ellipsisCall   -- hasVariadicArgs: the call has an ellipsis (whatever the argument) — the source before 449969c
+  | ifaceSrc       -- isInterfaceSrc(arg) && (!isEmptyInterface(arg) || len(c.typ.method) > 0)
+  | ifaceBin       -- isInterfaceBin(arg): a host interface
+  | funcSrc        -- isFuncSrc(arg)
+  | default
+  | unrecognised
+  deriving DecidableEq, Repr
+
+inductive CAEffect where
+  | raw          -- genValue(c)
+  | boxIface     -- genValueInterface(c)
+  | ifaceWrap    -- genInterfaceWrapper(c, arg.rtype)
+  | funcValue    -- genFuncValue(c): a *node becomes its reflect.MakeFunc wrapper
+  | unrecognised
+  deriving DecidableEq, Repr
+
+structure CallArgArm where
+  guard : CAGuard
+  effect : CAEffect
+  deriving DecidableEq, Repr
+
 /-- index expressions of the result stores -/
 inductive IExpr where
   | i | base | add (a b : IExpr) | lit (n : Nat) | unrecognised
@@ -496,10 +521,14 @@ structure Facts where
   variadicSub : Nat               -- variadic = funcType.NumIn() - variadicSub
   argTypeCmp : Cmp                -- `i+rcvrOffset >= variadic` (conversion of constants)
   argTypeElem : Bool              -- argType = funcType.In(variadic).Elem()
+  argTypeSpreadArm : Bool         -- `case n.action == aCallSlice && i+rcvrOffset == variadic: argType = funcType.In(variadic)` comes first
   defTypeCmp : Cmp                -- `i+rcvrOffset >= variadic` (target of the interface wrapper)
   defTypeElem : Bool              -- defType = funcType.In(variadic).Elem()  (the source says In(variadic))
   callArms : List CallArm         -- callBin's callFn, in order of precedence: aCallSlice → CallSlice, variadic → callVariadic, else Call
   fvArms : List CallArm           -- `call`, host function held in a variable: callf, the same three arms
+  callArgArms : List CallArgArm   -- `call`: the per-argument switch, in order
+  hostMethodBindsRecv : Bool      -- getIndexBinMethod / getIndexBinElemMethod: `bindRecv(…).Method(m)`
+  bindRecvCopies : Bool           -- bindRecv: a copy of an addressable value (`if !v.CanAddr() { return v }; c := New; c.Set(v); return c`)
   cvGuardVariadic : Bool          -- callVariadic: `t.IsVariadic() && …`
   cvCmp : Cmp                     -- … `len(in) == t.NumIn()-1`
   cvSub : Nat
@@ -548,12 +577,23 @@ def typeIndexY (cmp : Cmp) (elem : Bool) (variadic : Int) (off i : Nat) : Nat ×
 def argTypeIndexY (f : Facts) (isVariadic : Bool) (numIn off i : Nat) : Nat × Bool :=
   typeIndexY f.argTypeCmp f.argTypeElem (variadicIdxY f isVariadic numIn) off i
 
+/-- the same choice for a call written with `...` (`n.action == aCallSlice`): the arm for the spread argument comes first -/
+def argTypeIndexEY (f : Facts) (isVariadic ellipsis : Bool) (numIn off i : Nat) : Nat × Bool :=
+  let v := variadicIdxY f isVariadic numIn
+  if f.argTypeSpreadArm && ellipsis && decide (v ≥ 0) && decide ((i : Int) + off = v) then (v.toNat, false)
+  else argTypeIndexY f isVariadic numIn off i
+
 def defTypeIndexY (f : Facts) (isVariadic : Bool) (numIn off i : Nat) : Nat × Bool :=
   typeIndexY f.defTypeCmp f.defTypeElem (variadicIdxY f isVariadic numIn) off i
 
 /-- Go: the parameter (index in a signature that starts with `off` receiver slots) an argument is assigned to -/
 def typeIndexSpec (isVariadic : Bool) (numIn off i : Nat) : Nat × Bool :=
   if isVariadic && decide (i + off + 1 ≥ numIn) then (numIn - 1, true) else (i + off, false)
+
+/-- Go: with `...` every argument is assigned to the parameter of its own position, the last one to the variadic parameter
+    itself (its slice type) -/
+def typeIndexSpecE (isVariadic ellipsis : Bool) (numIn off i : Nat) : Nat × Bool :=
+  if ellipsis then (i + off, false) else typeIndexSpec isVariadic numIn off i
 
 def listToRepL : List Rep → RepL
   | [] => .nil
@@ -608,6 +648,39 @@ def packDeferY (f : Facts) (viaBin isVariadic ellipsis : Bool) (nFixed : Nat) (a
     let got := f.deferCall.run f wv (if isVariadic && !wv then nFixed + 1 else nFixed) args
     f.deferWrapKind.runR isVariadic nFixed got
   else f.deferCall.run f isVariadic nFixed args
+
+/-! ### `call` with a host function as function value: the preparation of one argument -/
+
+/-- what `call`'s predicates see of the PARAMETER type written by the script -/
+inductive CallParam where
+  | scriptIface                 -- a script-declared interface with methods
+  | emptyIface (argMethodful : Bool)   -- interface{}; the argument's static type has methods
+  | hostIface                   -- a host interface (isInterfaceBin)
+  | func
+  | other
+  deriving DecidableEq, Repr
+
+def CAGuard.holds (ellipsis isSpreadArg : Bool) (p : CallParam) : CAGuard → Bool
+  | .spreadArg => isSpreadArg
+  | .ellipsisCall => ellipsis
+  | .ifaceSrc => (match p with | .scriptIface => true | .emptyIface m => m | _ => false)
+  | .ifaceBin => (match p with | .hostIface => true | _ => false)
+  | .funcSrc => (match p with | .func => true | _ => false)
+  | .default => true
+  | .unrecognised => false
+
+def firstCallArm (ellipsis isSpreadArg : Bool) (p : CallParam) : List CallArgArm → CAEffect
+  | [] => .raw
+  | a :: rest => if a.guard.holds ellipsis isSpreadArg p then a.effect else firstCallArm ellipsis isSpreadArg p rest
+
+/-- the value `call` hands to reflect for one argument when the function value is a host function -/
+def callPrepareY (arms : List CallArgArm) (ellipsis isSpreadArg : Bool) (p : CallParam) (r : Rep) : Rep :=
+  match firstCallArm ellipsis isSpreadArg p arms with
+  | .raw => r
+  | .boxIface => .vi r
+  | .ifaceWrap => genInterfaceWrapperY .hostIface r
+  | .funcValue => (match r with | .node id => .mkfunc id false | x => x)
+  | .unrecognised => r
 
 def RepL.snoc : RepL → Rep → RepL
   | .nil, v => .cons v .nil
@@ -734,6 +807,14 @@ def wrapperRecvY (f : Facts) (wantsPtr : Bool) (hMade hNow : Nat → Rep) : Recv
 def recvSpec (wantsPtr : Bool) (hMade hNow : Nat → Rep) : RecvSrc → Rep
   | .var made _ => bindRecvY hMade wantsPtr made
   | .held v => bindRecvY hNow wantsPtr v
+
+/-! ### method values of HOST values (getIndexBinMethod & co) -/
+
+/-- The receiver a method value `mv := x.M` of a host value is called with. reflect reads the receiver of `v.Method(i)` when
+    the method value is CALLED if `v` is addressable (documented behaviour of reflect's method values over a variable: trusted);
+    bindRecv hands reflect a copy, so the receiver is the one reached when the method value was EVALUATED. -/
+def hostMethodRecvY (f : Facts) (wantsPtr : Bool) (hMade hNow : Nat → Rep) (made now : Rep) : Rep :=
+  if f.hostMethodBindsRecv && f.bindRecvCopies then bindRecvY hMade wantsPtr made else bindRecvY hNow wantsPtr now
 
 /-- the receiver record genInterfaceWrapper gives the method wrappers of a conversion `var s I = x` (`xConv`: what `x` yields at
     the conversion, `xNow`: when a method is called) -/
